@@ -483,9 +483,11 @@ pub fn c13_cases(rng: &mut Rng, tier: &str, out: &mut Out) {
 pub fn c14_cases(rng: &mut Rng, tier: &str, out: &mut Out) {
     let n = if tier == "thorough" { 400 } else { 60 };
     let (ch, tag) = if cfg!(feature = "scaled") { (64usize, 16usize) } else { (131072, 16) };
+    let bl = if cfg!(feature = "scaled") { 256usize } else { 4 << 20 };
+    let naligned = if cfg!(feature = "scaled") { if tier == "thorough" { 48 } else { 12 } } else { 0 };
     let mut k = 0;
     let mut done = 0;
-    while done < n {
+    while done < n + naligned {
         let layers = (k % 4) as u8;
         k += 1;
         let mut plan = gen_plan(rng, layers);
@@ -495,7 +497,33 @@ pub fn c14_cases(rng: &mut Rng, tier: &str, out: &mut Out) {
         plan.recipients = 1;
         plan.reader_key = 0;
         let nflush = rng.range(1, 3) as usize;
-        let flush_after: Vec<usize> = (0..nflush).map(|_| rng.below(plan.pieces.len() as u64) as usize).collect();
+        let mut flush_after: Vec<usize> = (0..nflush).map(|_| rng.below(plan.pieces.len() as u64) as usize).collect();
+        if done >= n {
+            // two flushes separated by EXACTLY j blocks (or chunks) of the layer's input stream:
+            // a content block of d bytes takes 17 + d bytes of stream
+            let j = 1 + (done - n) % 3;
+            let unit = if (done - n) % 2 == 0 { bl } else { ch };
+            let first = rng.range(0, 40) as usize;
+            let (parts, extra) = if rng.below(2) == 0 { (1usize, 17usize) } else { (2, 34) };
+            let dist = j * unit;
+            if dist <= extra + parts {
+                continue;
+            }
+            let mut pieces = vec![(0usize, rng.bytes(first))];
+            let mut left = dist - extra;
+            for q in 0..parts {
+                let m = if q + 1 == parts { left } else { rng.range(1, (left - 1) as u64) as usize };
+                pieces.push((0, (0..m).map(|i| (i % 251) as u8).collect()));
+                left -= m;
+            }
+            let tail = rng.range(1, 60) as usize;
+            pieces.push((0, rng.bytes(tail)));
+            plan = Plan { names: vec![b"f".to_vec()], pieces, layers: if layers & L_COMP != 0 || unit == bl { layers | L_COMP } else { layers | L_ENC }, level: plan.level, recipients: 1, reader_key: 0 };
+            flush_after = vec![0, parts];
+            if first == 0 {
+                // an empty first piece emits no block: the first flush still comes after the FileStart block
+            }
+        }
         let bs = match catch(|| build_sink(rng, &plan, &flush_after, vec![], 0)) {
             Ok(Ok(b)) => b,
             _ => continue,
